@@ -10,6 +10,7 @@ EXTENDS Naturals, Sequences, FiniteSets, TLC
 CONSTANTS Perms,     \* permission set of the cell under test
           Tok,       \* value tokens; "v0" is the initial value
           Ids,       \* id kinds for list reads: "e1", "e2" readable, "wo" write-only, "missing"
+          WIds,      \* id kinds for list writes: "w1", "w2" writable, "ro" read-only, "missing"
           MaxList, Weak
 VARIABLES val, subscribed, twin, last
 vars == <<val, subscribed, twin, last>>
@@ -30,7 +31,9 @@ SubTwin        == /\ twin' = TRUE /\ Out("SubTwin", "none", <<>>, "ok", "none", 
 UnsubTwin      == /\ twin' = FALSE /\ Out("UnsubTwin", "none", <<>>, "ok", "none", 0) /\ UNCHANGED <<val, subscribed>>
 RemoteWrite(t) == /\ IF W \/ ~Guard("write_needs_pw")
                      THEN val' = t /\ Out("RemoteWrite", t, <<>>, "ok", IF t # val THEN t ELSE "none", 0)
-                     ELSE UNCHANGED val /\ Out("RemoteWrite", t, <<>>, "ignored", "none", 0)
+                     \* a write the controller may not make is answered with an error status (guard refused_write_reported);
+                     \* without the guard it is dropped silently and the answer reads like a success
+                     ELSE UNCHANGED val /\ Out("RemoteWrite", t, <<>>, IF Guard("refused_write_reported") THEN "status" ELSE "ignored", "none", 0)
                   /\ UNCHANGED <<subscribed, twin>>
 RemoteRead     == /\ Out("RemoteRead", "none", <<>>, IF R THEN val ELSE "status", "none", 0) /\ UNCHANGED <<val, subscribed, twin>>
 \* the application supplies the value through an installed getter (OnValueGet): the read returns it and it is the stored
@@ -52,10 +55,20 @@ Shape(ids) == [http |-> IF \A i \in 1..Len(ids) : EntryOK(ids[i]) THEN 200 ELSE 
                                                               ELSE (Guard("status_in_every_entry") \/ ~EntryOK(ids[i]))]]]
 ReadList(ids)  == /\ Out("ReadList", "none", ids, "shape", "none", 0) /\ UNCHANGED <<val, subscribed, twin>>
 
+\* response shape of a list write (PUT): 204 without a body iff every entry could be written, else 207 with one entry per
+\* requested id, in order, each with a status: 0 for the entries that were written, an error for the others
+WGood(k) == k \in {"w1", "w2"}
+WShape(ids) == IF (\A i \in 1..Len(ids) : WGood(ids[i])) \/ ~Guard("refused_write_reported")
+               THEN [http |-> 204, entries |-> <<>>]
+               ELSE [http |-> 207, entries |-> [i \in 1..Len(ids) |-> [id |-> ids[i], status |-> TRUE, zero |-> WGood(ids[i])]]]
+WriteList(ids) == /\ Out("WriteList", "none", ids, "wshape", "none", 0) /\ UNCHANGED <<val, subscribed, twin>>
+WLists == {w \in UNION {[1..n -> WIds] : n \in 1..MaxList} :
+             \A i, j \in 1..Len(w) : (i # j /\ WGood(w[i])) => w[i] # w[j]}      \* a cell is written once per request
 Lists == UNION {[1..n -> Ids] : n \in 1..MaxList}
 Next == \/ \E t \in Tok : LocalSet(t) \/ RemoteWrite(t) \/ GetterRead(t)
         \/ RemoteRead \/ AccRead \/ Sub \/ Unsub \/ SubTwin \/ UnsubTwin
         \/ \E ids \in Lists : ReadList(ids)
+        \/ \E ids \in WLists : WriteList(ids)
 Spec == Init /\ [][Next]_vars
 
 \* ---- C09 / C11 on the design
@@ -70,6 +83,14 @@ ShapeOK(ids) == LET s == Shape(ids) IN
                                              /\ (~EntryOK(ids[i]) => ~s.entries[i].value)
                   /\ (s.http = 207 => \A i \in 1..Len(ids) : s.entries[i].status)             \* multi-status: a status everywhere
                   /\ (s.http = 200 <=> \A i \in 1..Len(ids) : EntryOK(ids[i]))
-ShapeRule == last.a = "ReadList" => ShapeOK(last.ids)
+WShapeOK(ids) == LET s == WShape(ids)
+                     allgood == \A i \in 1..Len(ids) : WGood(ids[i]) IN
+                  /\ (s.http = 204 <=> allgood)
+                  /\ (~allgood => /\ Len(s.entries) = Len(ids)
+                                  /\ \A i \in 1..Len(ids) : /\ s.entries[i].id = ids[i] /\ s.entries[i].status
+                                                             /\ (s.entries[i].zero <=> WGood(ids[i])))
+ShapeRule == /\ last.a = "ReadList" => ShapeOK(last.ids)
+             /\ last.a = "WriteList" => WShapeOK(last.ids)
+             /\ (last.a = "RemoteWrite" /\ ~W) => last.r = "status"
 View == <<val, subscribed, twin>>
 =======================================================================
